@@ -440,6 +440,9 @@ class Interp:
             if isinstance(dec, Ext) and dec.dotted in ('functools.singledispatch', 'singledispatch') and isinstance(v, FuncRef):
                 v = self.models.SingleDispatch(self, v)
                 continue
+            if isinstance(dec, Ext) and dec.dotted in ('functools.singledispatchmethod', 'singledispatchmethod') and isinstance(v, FuncRef):
+                v = self.models.SingleDispatch(self, v, method=True)
+                continue
             if isinstance(dec, Ext) and dec.dotted in ('contextlib.contextmanager', 'contextmanager') and isinstance(v, FuncRef):
                 v = self.models.ContextManagerFactory(v)
                 continue
@@ -1471,6 +1474,8 @@ class Interp:
                 alld = self.dec_names(fn)
                 if alld and not all(d in self.TRANSPARENT_DECORATORS for d in alld):
                     g = self.decorated(f)
+                    if g is not f and getattr(g, 'abs_bind', None) is not None and inst is not None:
+                        return g.abs_bind(inst)
                     if g is not f:
                         if isinstance(g, FuncRef) and inst is not None and 'staticmethod' not in decs:
                             return Bound(inst if 'classmethod' not in decs else (inst.cls if isinstance(inst, Inst) else cls), g)
